@@ -329,12 +329,18 @@ def _main2(engine, prop, args, seed, jobs):
 
     core.run_forked(all_jobs(), jobs, on_result)
 
-    if harness_errors:
+    if harness_errors and not pending_reports:
         raise HarnessError("; ".join(harness_errors)[:4000])
 
     for trace, v in pending_reports[:4]:
         if report_violation(engine, prop, trace, v, tier_cfg, findings, printed_known):
             new_violations += 1
+    if harness_errors:
+        # runs that completed found violations: those stand whatever happened to other runs (a run child that exceeded
+        # its wall clock is usually the same changed code being pathologically slow on another input)
+        print("note: %d run(s) ended in a harness error besides: %s" % (len(harness_errors), "; ".join(harness_errors)[:300]))
+        if not new_violations:
+            raise HarnessError("; ".join(harness_errors)[:4000])
     wall = time.monotonic() - t0
     if args.digests:
         with open(args.digests, "w") as f:
